@@ -25,6 +25,7 @@ CONSTANTS Clients,          \* client names; a client's side string is its name
           ReentKinds,       \* event kinds whose delegate callback may call close() re-entrantly
           WelcomeErr,       \* BOOLEAN: the server may greet with welcome{error}
           ConnFails,        \* BOOLEAN: the very first connection attempt may fail
+          MaxSrvErr,        \* unprovoked {"type": "error"} frames the server may send (total)
           MaxCloseAt        \* close() may be called while fewer than this many env steps ... (unused: 0)
 
 VARIABLES cs, srv, net, bud, lastAct
@@ -38,7 +39,7 @@ Init ==
   /\ srv = SrvInit
   /\ net = [c \in Clients |-> DownConn]
   /\ bud = [drops |-> MaxDrops, helper |-> MaxHelper, dup |-> MaxDup, swap |-> MaxSwap, inject |-> MaxInject,
-            tamper |-> MaxTamper, sends |-> [c \in Clients |-> 0], dead |-> [c \in Clients |-> FALSE],
+            tamper |-> MaxTamper, srverr |-> MaxSrvErr, sends |-> [c \in Clients |-> 0], dead |-> [c \in Clients |-> FALSE],
             closeCalled |-> [c \in Clients |-> FALSE], codeCalls |-> [c \in Clients |-> 0],
             cause |-> [c \in Clients |-> "-"], peerSeen |-> [c \in Clients |-> FALSE], seenAtCause |-> [c \in Clients |-> FALSE],
             badSeen |-> [c \in Clients |-> FALSE], srvErrSeen |-> [c \in Clients |-> FALSE], welErrSeen |-> [c \in Clients |-> FALSE]]
@@ -246,6 +247,14 @@ Dup(c, i) ==
   /\ lastAct' = Act("Dup", c, ToString(i), "-")
   /\ UNCHANGED <<cs, srv>>
 
+\* the server reports an error of its own accord (overload, internal fault, an operator's ban) at any moment
+SrvError(c) ==
+  /\ bud.srverr > 0 /\ net[c].up /\ ~net[c].closing
+  /\ net' = ErrorReply(net, c, "unprovoked")
+  /\ bud' = [bud EXCEPT !.srverr = @ - 1]
+  /\ lastAct' = Act("SrvError", c, "-", "-")
+  /\ UNCHANGED <<cs, srv>>
+
 \* the mailbox is an unordered set: two adjacent message frames in flight change places
 Swap(c, i) ==
   /\ bud.swap > 0 /\ net[c].up /\ i \in 1..(Len(net[c].s2c) - 1)
@@ -294,6 +303,7 @@ Next ==
         \/ ConnFail(c) \/ Drop(c) \/ CloseDone(c) \/ Serve(c)
         \/ \E late \in BOOLEAN : DeliverFrame(c, late)
         \/ \E i \in 1..4 : Dup(c, i) \/ Swap(c, i)
+        \/ SrvError(c)
         \/ \E i \in 1..4, op \in TamperOps : \E v \in TamperValues(op) : Tamper(c, i, op, v)
   \/ \E m \in MailboxIds, msg \in InjectSet : Inject(m, msg)
 
